@@ -116,32 +116,34 @@ def krCols (group : List MatS) : Except Reject Nat :=
   | [] => .error .reject
   | m :: rest => if rest.all (fun x => x.2 == m.2) then .ok m.2 else .error .reject
 
+/-- the Khatri-Rao products of `tensor.mttkrp` for mode `n` (first, last, or in between) and,
+in between, the reshape of `Y @ Ul` to `(szl, szn, R)` -/
+def krTail (U : List MatS) (N n R : Nat) : Except Reject Unit :=
+  if n == 0 then (krCols (U.drop 1)).map (fun _ => ())
+  else if n == N - 1 then (krCols (U.take (N - 1))).map (fun _ => ())
+  else
+    match krCols (U.drop (n + 1)), krCols (U.take n) with
+    | .ok c2, .ok _ => rejectIf (c2 != R)
+    | _, _ => .error .reject
+
 /-- `tensor.mttkrp` -/
 def validate_mttkrp_dense (a : MttkrpArgs) : Except Reject Unit :=
   let N := a.shape.length
   if N < 2 then .error .reject
   else if !(decide (0 ≤ a.n) && decide (a.n < (N : Int))) then .error .reject
   else if a.U.length != N then .error .reject
-  else
-    let n := a.n.toNat
-    let R := usedR a.U a.n
-    if !((usedIdx N a.n).all fun i => (a.U.getD i (0, 0)).1 == a.shape.getD i 0) then .error .reject
-    else if n == 0 then (krCols (a.U.drop 1)).map (fun _ => ())
-    else if n == N - 1 then (krCols (a.U.take (N - 1))).map (fun _ => ())
-    else
-      match krCols (a.U.drop (n + 1)), krCols (a.U.take n) with
-      | .ok c2, .ok _ => rejectIf (c2 != R)   -- reshape of `Y @ Ul` to (szl, szn, R)
-      | _, _ => .error .reject
+  else if !((usedIdx N a.n).all fun i => (a.U.getD i (0, 0)).1 == a.shape.getD i 0) then .error .reject
+  else krTail a.U N a.n.toNat (usedR a.U a.n)
 
-/-- `sptensor.mttkrp`: list length, mode and sizes, column counts, then one `ttv` per column -/
+/-- `sptensor.mttkrp`: mode, list length, sizes of the used factors (then one `ttv` per column,
+which cannot fail any more) -/
 def validate_mttkrp_sparse (a : MttkrpArgs) : Except Reject Unit :=
   let N := a.shape.length
-  if a.U.length != N then .error .reject
+  if !(decide (0 ≤ a.n) && decide (a.n < (N : Int))) then .error .reject
+  else if a.U.length != N then .error .reject
   -- `U[1].shape[1]` / `U[0].shape[1]`
   else if (if a.n = 0 then N < 2 else N < 1) then .error .reject
-  else if !(decide (0 ≤ a.n) && decide (a.n < (N : Int))) then .error .reject
-  else if !((usedIdx N a.n).all fun i => a.U.getD i (0, 0) == (a.shape.getD i 0, usedR a.U a.n)) then .error .reject
-  else rejectIf (N < 2)
+  else rejectIf (!((usedIdx N a.n).all fun i => a.U.getD i (0, 0) == (a.shape.getD i 0, usedR a.U a.n)))
 
 /-- `ktensor.mttkrp`: mode, list length, column counts, then `A_i.T @ U_i` for every other mode -/
 def validate_mttkrp_ktensor (a : MttkrpArgs) : Except Reject Unit :=
@@ -150,8 +152,7 @@ def validate_mttkrp_ktensor (a : MttkrpArgs) : Except Reject Unit :=
   else if a.U.length != N then .error .reject
   else if (if a.n = 0 then N < 2 else N < 1) then .error .reject
   else if !((usedIdx N a.n).all fun i => (a.U.getD i (0, 0)).2 == usedR a.U a.n) then .error .reject
-  else if !((usedIdx N a.n).all fun i => (a.U.getD i (0, 0)).1 == a.shape.getD i 0) then .error .reject
-  else rejectIf (N < 2)
+  else rejectIf (!((usedIdx N a.n).all fun i => (a.U.getD i (0, 0)).1 == a.shape.getD i 0))
 
 /-- `ttensor.mttkrp`: list length, `A_i.T @ U_i`, then the dense core's `mttkrp` on the products -/
 def validate_mttkrp_ttensor (a : MttkrpArgs) (core : List Nat) : Except Reject Unit :=
@@ -194,15 +195,21 @@ def allInRange (n : Nat) (ms : List Int) : Bool := ms.all fun m => decide (0 ≤
 def isPermOfI (p : List Int) (n : Nat) : Bool :=
   p.length == n && (List.range n).all (fun m => p.contains (Int.ofNat m))
 
+/-- the range test of an optional mode list -/
+def optInRange (n : Nat) (o : Option (List Int)) : Bool :=
+  match o with
+  | none => true
+  | some r => allInRange n r
+
 /-- `tensor.to_tenmat(rdims, cdims, cdims_cyclic)` -/
 def validate_toTenmat (n : Nat) (rdims cdims : Option (List Int)) (cyc : Option Cyclic) : Except Reject Unit :=
   if rdims.isNone && cdims.isNone then .error .reject
-  else if !(match rdims with | none => true | some r => allInRange n r) then .error .reject
-  else if !(match cdims with | none => true | some c => allInRange n c) then .error .reject
+  else if !optInRange n rdims then .error .reject
+  else if !optInRange n cdims then .error .reject
   else
     match wrapDimsI n rdims cdims cyc with
     | none => .error .reject
-    | some (r, c) => rejectIf (!isPermOfI (r ++ c) n)
+    | some rc => rejectIf (!isPermOfI (rc.1 ++ rc.2) n)
 
 /-- `sptensor.to_sptenmat(rdims, cdims, cdims_cyclic)`: no range test of its own -/
 def validate_toSptenmat (n : Nat) (rdims cdims : Option (List Int)) (cyc : Option Cyclic) : Except Reject Unit :=
@@ -320,18 +327,20 @@ def validate_tenmat (a : TenmatArgs) : Except Reject Unit :=
         else rejectIf (!isPermOfI (r ++ c) n)
       | _, _ => .error .reject
 
+/-- the checks of the `sptenmat` constructor once the row and column modes are known -/
+def sptenmatTail (a : SptenmatArgs) (r c : List Int) : Except Reject Unit :=
+  if !isPermOfI (r ++ c) a.tshape.length then .error .reject
+  else if !a.subs.isEmpty && a.width != 2 then .error .reject
+  else if !(a.subs.all fun row => decide (0 ≤ row.getD 0 0) && decide (0 ≤ row.getD 1 0)) then .error .reject
+  else if !(a.subs.all fun row => decide (row.getD 0 0 < (sideSize a.tshape r : Int))) then .error .reject
+  else if !(a.subs.all fun row => decide (row.getD 1 0 < (sideSize a.tshape c : Int))) then .error .reject
+  else rejectIf (a.nvals != a.subs.length)
+
 /-- `sptenmat(subs, vals, rdims, cdims, tshape)` -/
 def validate_sptenmat (a : SptenmatArgs) : Except Reject Unit :=
-  let n := a.tshape.length
-  match wrapDimsI n a.rdims a.cdims none with
+  match wrapDimsI a.tshape.length a.rdims a.cdims none with
   | none => .error .reject
-  | some (r, c) =>
-    if !isPermOfI (r ++ c) n then .error .reject
-    else if !a.subs.isEmpty && a.width != 2 then .error .reject
-    else if !(a.subs.all fun row => decide (0 ≤ row.getD 0 0) && decide (0 ≤ row.getD 1 0)) then .error .reject
-    else if !(a.subs.all fun row => decide (row.getD 0 0 < (sideSize a.tshape r : Int))) then .error .reject
-    else if !(a.subs.all fun row => decide (row.getD 1 0 < (sideSize a.tshape c : Int))) then .error .reject
-    else rejectIf (a.nvals != a.subs.length)
+  | some rc => sptenmatTail a rc.1 rc.2
 
 def validate_fromVector (shape : List Nat) (n : Nat) (cw : Bool) : Except Reject Unit :=
   let d := shape.sum + (if cw then 1 else 0)
@@ -367,81 +376,106 @@ def validate_khatrirao (ms : List MatS) (rev : Bool) : Except Reject Unit :=
 
 /-! ### algorithm options -/
 
+/-- `tuple(range(N)) != tuple(sorted(dimorder))` when an order is given -/
+def optPerm (N : Nat) (o : Option (List Int)) : Bool :=
+  match o with
+  | none => true
+  | some p => isPermOfI p N
+
+/-- distinct modes of the tensor, when given -/
+def optModes (N : Nat) (o : Option (List Int)) : Bool :=
+  match o with
+  | none => true
+  | some d => allInRange N d && !hasDupI d
+
+def optEmpty (o : Option (List Int)) : Bool :=
+  match o with
+  | none => false
+  | some d => d.isEmpty
+
+/-- `init.ndims == N` and every mode of the guess has the tensor's extent -/
+def shapeEq (s shape : List Nat) : Bool :=
+  s.length == shape.length && (List.range shape.length).all (fun k => s.getD k 0 == shape.getD k 0)
+
+def initCpAls (i : InitSpec) (shape : List Nat) (rank : Int) : Bool :=
+  match i with
+  | .ktensor s R _ _ => shapeEq s shape && decide ((R : Int) = rank)
+  | .random => true
+  | .nvecs => true
+  | _ => false
+
 def validate_cpAls (a : CpAlsArgs) : Except Reject Unit :=
   let N := a.shape.length
-  if !(match a.dimorder with | none => true | some p => isPermOfI p N) then .error .reject
-  else if !(match a.optdims with | none => true | some d => allInRange N d && !hasDupI d) then .error .reject
+  if !optPerm N a.dimorder then .error .reject
+  else if !optModes N a.optdims then .error .reject
   else if !(decide (0 < a.rank)) then .error .reject
-  else
-    let initOk : Bool :=
-      match a.init with
-      | .ktensor s R _ _ =>
-        s.length == N && decide ((R : Int) = a.rank) &&
-          (List.range N).all (fun k => s.getD k 0 == a.shape.getD k 0)
-      | .random => true
-      | .nvecs => true
-      | _ => false
-    if !initOk then .error .reject
-    -- `dimorder[-1]` of the modes kept for optimisation
-    else rejectIf ((match a.optdims with | none => N == 0 | some d => d.isEmpty) || N == 0)
+  else if !initCpAls a.init a.shape a.rank then .error .reject
+  -- `dimorder[-1]` of the modes kept for optimisation
+  else rejectIf (optEmpty a.optdims || N == 0)
+
+def initCpApr (i : InitSpec) (shape : List Nat) (rank : Int) : Bool :=
+  match i with
+  | .ktensor s R nf nw => shapeEq s shape && decide ((R : Int) = rank) && !nf && !nw
+  | .random => true
+  | _ => false
 
 def validate_cpApr (a : CpAprArgs) : Except Reject Unit :=
-  let N := a.shape.length
   if !(decide (0 < a.rank)) then .error .reject
   else if !a.dataNonneg then .error .reject
-  else
-    let initOk : Bool :=
-      match a.init with
-      | .ktensor s R nf nw =>
-        s.length == N && decide ((R : Int) = a.rank) &&
-          (List.range N).all (fun k => s.getD k 0 == a.shape.getD k 0) && !nf && !nw
-      | .random => true
-      | _ => false
-    if !initOk then .error .reject
-    else rejectIf a.algorithm.isNone
+  else if !initCpApr a.init a.shape a.rank then .error .reject
+  else rejectIf a.algorithm.isNone
+
+def initTucker (i : InitSpec) (shape : List Nat) (rank order : List Int) : Bool :=
+  match i with
+  | .mats ms =>
+    ms.length == shape.length && (order.drop 1).all fun d =>
+      decide (((ms.getD d.toNat (0, 0)).1 : Int) = shape.getD d.toNat 0) &&
+      decide (((ms.getD d.toNat (0, 0)).2 : Int) = rankAt rank d.toNat)
+  | .random => true
+  | .nvecs => true
+  | _ => false
 
 def validate_tucker (a : TuckerArgs) : Except Reject Unit :=
   let N := a.shape.length
   if !a.maxitersNonneg then .error .reject
   else if !(a.rank.length == 1 || a.rank.length == N) then .error .reject
-  else if !(match a.dimorder with | none => true | some p => isPermOfI p N) then .error .reject
-  else
-    let order := a.dimorder.getD ((List.range N).map Int.ofNat)
-    let initOk : Bool :=
-      match a.init with
-      | .mats ms =>
-        ms.length == N && (order.drop 1).all fun d =>
-          decide (((ms.getD d.toNat (0, 0)).1 : Int) = a.shape.getD d.toNat 0) &&
-          decide (((ms.getD d.toNat (0, 0)).2 : Int) = rankAt a.rank d.toNat)
-      | .random => true
-      | .nvecs => true
-      | _ => false
-    if !initOk then .error .reject
-    else rejectIf (N == 0)
+  else if !optPerm N a.dimorder then .error .reject
+  else if !initTucker a.init a.shape a.rank (a.dimorder.getD ((List.range N).map Int.ofNat)) then .error .reject
+  else rejectIf (N == 0)
+
+def optLen (N : Nat) (o : Option Nat) : Bool :=
+  match o with
+  | none => true
+  | some k => k == N
 
 def validate_hosvd (N : Nat) (ranks : Option Nat) (dimorder : Option (List Int)) : Except Reject Unit :=
-  if !(match ranks with | none => true | some k => k == N) then .error .reject
-  else rejectIf (!(match dimorder with | none => true | some p => isPermOfI p N))
+  if !optLen N ranks then .error .reject
+  else rejectIf (!optPerm N dimorder)
+
+def maskFits (shape : List Nat) (o : Option (List Nat)) : Bool :=
+  match o with
+  | none => true
+  | some m => m == shape
+
+def initGcp (i : InitSpec) (shape : List Nat) (rank : Int) : Bool :=
+  match i with
+  | .ktensor s R _ _ => s == shape && decide ((R : Int) = rank)
+  | .mats ms =>
+    -- `ktensor(init)` (equal column counts) then the shape / component test
+    !ms.isEmpty && ms.all (fun m => m.2 == (ms.getD 0 (0, 0)).2) &&
+      ms.map (·.1) == shape && decide ((((ms.getD 0 (0, 0)).2 : Nat) : Int) = rank)
+  | .random => true
+  | _ => false
 
 def validate_gcp (a : GcpArgs) : Except Reject Unit :=
   if !a.objectiveOk then .error .reject
   -- dense data with a tensor mask: `data *= mask`
-  else if !a.sparse && !(match a.mask with | none => true | some m => m == a.shape) then .error .reject
+  else if !a.sparse && !maskFits a.shape a.mask then .error .reject
   else if a.sparse && a.mask.isSome then .error .reject
-  else
-    let initOk : Bool :=
-      match a.init with
-      | .ktensor s R _ _ => s == a.shape && decide ((R : Int) = a.rank)
-      | .mats ms =>
-        -- `ktensor(init)` then the shape / component test
-        !ms.isEmpty && ms.all (fun m => m.2 == (ms.getD 0 (0, 0)).2) &&
-          ms.map (·.1) == a.shape && decide ((((ms.getD 0 (0, 0)).2 : Nat) : Int) = a.rank)
-      | .random => true
-      | _ => false
-    if !initOk then .error .reject
-    else if !(a.solver == 0 || a.solver == 1) then .error .reject
-    else if a.sparse && a.solver == 0 then .error .reject
-    else rejectIf (a.solver == 1 && a.mask.isSome)
+  else if !initGcp a.init a.shape a.rank then .error .reject
+  else if !(a.solver == 0 || a.solver == 1) then .error .reject
+  else if a.sparse && a.solver == 0 then .error .reject
+  else rejectIf (a.solver == 1 && a.mask.isSome)
 
 /-! ### importer -/
 
